@@ -165,6 +165,11 @@ def compare_bool(got, verdict, kind, detail):
 @st.composite
 def membership_case(draw):
     polys = [draw(polygon()) for _ in range(draw(st.integers(1, 5)))]
+    if draw(st.integers(0, 15)) == 0:
+        # many caps (balkanised survey polygons can have dozens): the use-mask needs more than 63 bits
+        big = draw(polygon(min_caps=64, max_caps=70))
+        big['cm'] = [abs(c) if abs(c) > 1.0 else 2.0 - abs(c) for c in big['cm']]       # large caps so that something is inside
+        polys[0] = big
     pts = draw(points_for(polys))
     return dict(polys=polys, points=pts, mode=draw(st.sampled_from(['xyz', 'radec'])), ncaps=draw(st.sampled_from([0, 0, 1, 2, 3, 9])))
 
